@@ -1222,8 +1222,8 @@ pub fn time_4(hour_value: &Value, minute_value: &Value, second_value: &Value, du
           match duration_value {
             Value::DaysAndTimeDuration(duration) => {
               // like in time literals, the magnitude of the offset is limited to less than 15 hours
-              let offset = duration.as_seconds();
-              if offset.abs() < 15 * 3_600 {
+              if duration.abs() < FeelDaysAndTimeDuration::default().second(15 * 3_600).build() {
+                let offset = duration.as_seconds();
                 if let Some(feel_time) = FeelTime::new_hmso_opt(
                   hour.to_u8().unwrap(),
                   minute.to_u8().unwrap(),
